@@ -37,6 +37,7 @@ func Exhaustive(e *hx.Env, prop string, mon Monitor, depth int, budgetSec int) *
 		{"resync ? 0 0"},
 		{"syncips 0"},
 		{"pod run ns1 a-0"},
+		{"pod term ns1 a-0 0"},
 		{"release 168427522 sts_ ns1 a a-0 ~ 0 0"},
 		{"restart"},
 		{"app scale sts ns1 a 0"},
@@ -65,6 +66,11 @@ func Exhaustive(e *hx.Env, prop string, mon Monitor, depth int, budgetSec int) *
 				uid := "0"
 				if tp := w.TruthPod(f[1], f[2]); tp != nil {
 					uid = uidNum(tp.UID)
+					if tp.Spec.NodeName != "" {
+						// a repeated bind of a bound pod is answered 409 and sits out the 3 s of Bind's retry loop in every
+						// extension of this path: left to the "binding-answers" profile
+						return "sync pods"
+					}
 				}
 				l = strings.Replace(l, " @ ", " "+uid+" ", 1)
 			}
